@@ -389,22 +389,58 @@ class Report:
         return 1 if self.violations else 0
 
 
-def replay_cases(binary, d, cases, name="run"):
-    """Send case lines through the real code; returns {id: output line}."""
+def _run_cases_once(binary, d, cases, name):
+    """One harness process over `cases`; returns (status, outs): status 0 ok, 3 watchdog, "crash:<n>" when the process was killed by a signal
+    (the code under test exhausted the stack or aborted: nothing in-process can report that)."""
     cin = os.path.join(d, name + ".in.ndjson")
     cout = os.path.join(d, name + ".out.ndjson")
     write_ndjson(cin, [{"id": c["id"], "fn": c["fn"], "a": c["a"], "input": c["input"]} for c in cases])
-    rc, _ = run_harness(binary, ["run", cin, cout])
+    p = subprocess.run([binary, "run", cin, cout], capture_output=True, text=True, timeout=3600)
+    if p.returncode < 0 or p.returncode in (134, 139):
+        return "crash:%d" % p.returncode, {}
+    if p.returncode not in (0, 3):
+        raise ToolError("harness run failed (%d): %s" % (p.returncode, p.stderr[-2000:]))
     outs = {o["id"]: o for o in read_ndjson(cout)}
-    if rc == 3:
+    if p.returncode == 3:
         t = read_ndjson(cout + ".timeout")
         outs["__timeout__"] = t[0] if t else {"timeout": "?"}
+    return p.returncode, outs
+
+
+def replay_cases(binary, d, cases, name="run"):
+    """Send case lines through the real code; returns {id: output line}.  A process killed by a signal is data too: the cases that
+    kill it are isolated by bisection (at most 3) and reported under "__crash__"; the others are run without them."""
+    cases = list(cases)
+    status, outs = _run_cases_once(binary, d, cases, name)
+    crashers = []
+    while isinstance(status, str) and len(crashers) < 3:
+        lo = cases
+        while len(lo) > 1:
+            half = lo[:len(lo) // 2]
+            st, _ = _run_cases_once(binary, d, half, name + ".bisect")
+            lo = half if isinstance(st, str) else lo[len(lo) // 2:]
+        st, _ = _run_cases_once(binary, d, lo, name + ".bisect")
+        if not isinstance(st, str):
+            raise ToolError("the harness was killed by a signal (%s) but no single case reproduces it" % status)
+        crashers.append(dict(lo[0], signal=st))
+        cases = [c for c in cases if c["id"] != lo[0]["id"]]
+        status, outs = _run_cases_once(binary, d, cases, name)
+    if isinstance(status, str):
+        raise ToolError("more than 3 cases kill the harness process (%s)" % status)
+    if crashers:
+        outs["__crash__"] = crashers
     return outs
 
 
 def judge_cases(rep, cases, outs, keyf=None, robust=True):
     """Compare every case with its observation under its pin mask."""
+    crashed = {x["id"]: x for x in outs.get("__crash__", [])}
     for c in cases:
+        if c["id"] in crashed:
+            rep.count()
+            rep.violation("abort:%s:%s" % (c["fn"], c["id"]), c, c.get("expect"), {"k": "abort", "signal": crashed[c["id"]]["signal"]},
+                          "the process was killed by a signal inside this call (stack exhaustion or abort): the call does not return", "case")
+            continue
         o = outs.get(c["id"])
         rep.count()
         if o is None or "res" not in o:
